@@ -329,6 +329,7 @@ structure ContSt where
   borrowed : List Nat := []    -- nodes stored without a reference
   mayHold : Bool := false      -- was handed to a function of the same module, which may have stored references
   released : Bool := false     -- every element was dereferenced and nothing was stored since
+  everReleased : Bool := false -- every element was dereferenced at some moment of the path
   freed : Bool := false
 deriving Repr, Inhabited
 
@@ -351,7 +352,7 @@ def contsEndOk (cs : List ContSt) : PathVerdict :=
   match List.find? (fun (k : ContSt) => k.kind != .param && (!k.owned.isEmpty || k.mayHold)) cs with
   | some k => .bad "path ends while a container of this function still holds references" k.id
   | none =>
-    match List.find? (fun (k : ContSt) => k.kind == .param && k.released != k.freed) cs with
+    match List.find? (fun (k : ContSt) => k.kind == .param && k.everReleased != k.freed) cs with
     | some k => .bad "a container of the caller is released without being consumed (or freed without being released)" k.id
     | none =>
       match List.find? (fun (k : ContSt) => k.kind == .array && !k.freed) cs with
@@ -387,7 +388,7 @@ def derefAllStep (float : Bool) (s : PathSt) (cs : List ContSt) (c : Nat) (fn bo
           if n.fromCont == some c || (isRecursiveDerefFn fn && !n.protected_) then { n with exposed := true }
           else n
       else s1
-    .ok (s2, setCont cs { k with owned := [], mayHold := false, released := true })
+    .ok (s2, setCont cs { k with owned := [], mayHold := false, released := true, everReleased := true })
 
 /-- Run the events of one path.  `float` selects the additional check that an unprotected
 fresh node is never used after a later node-creating call (or a recursive dereference). -/
@@ -546,6 +547,12 @@ def pathArraysFreed (loc : List String) (m : CMethod) (p : CPath) : Bool :=
   match runPath loc false m.returnsNode [] p.events with
   | .arrayLeak _ => false
   | _ => true
+
+/-- the path ends by raising `exc` -/
+def endsInRaiseOf (exc : String) : List CEv → Bool
+  | [] => false
+  | [.raise e] => e == exc
+  | _ :: r => endsInRaiseOf exc r
 
 /-- the path assumes `x.ref <= 0` although a reference on `x` is held: it cannot be taken -/
 def pathInfeasible (loc : List String) (m : CMethod) (p : CPath) : Bool :=
